@@ -27,7 +27,7 @@ static inline struct dt_dt_s __sexy_to_daisy(dt_ssexy_t sx)
 CONTRACT(PRE___sexy_to_daisy(sx), POST___sexy_to_daisy(RV, sx));
 
 /* (date, time) -> epoch seconds */
-#define PRE___to_unix_epoch(dt) (V_SANDWICH(dt))
+#define PRE___to_unix_epoch(dt) (V_SANDWICH(dt) && DIFF_T((dt).d.typ))
 #define POST___to_unix_epoch(ret, dt) ((ret) == U_DT(dt))
 static inline dt_ssexy_t __to_unix_epoch(struct dt_dt_s dt)
 CONTRACT(PRE___to_unix_epoch(dt), POST___to_unix_epoch(RV, dt));
